@@ -12,6 +12,12 @@ checks={
  "C01": dict(category="exploration", design="§3 C01", technique="exhaustive enumeration of configuration vectors (bounded Hamming distance from the default) x source trees x transport segmentations, each executed end to end on the real filter/relay/server code in virtual time",
    text="Every configuration vector within Hamming distance 2 (quick) / 3 (thorough) of the default over 14 dimensions, times a set of source trees and global segmentation policies, plus every single cut position of the whole transcript on a core of configurations and the more-files-than-descriptors trees, is run as a complete transfer through the real NewTrzszFilter, real relays, the fake tunnel and the real recvFiles/sendFiles; safety and liveness oracles compare trees, names and reports.",
    note="Trusted: the ~40-line replica of the tail of TrzMain/TszMain; the scheduler's default (deterministic) schedule - schedule perturbation is the business of C10/C11/C13/C18; zenity/promptui dialogs replaced by preset paths; fork re-exec not run."),
+ "C07": dict(category="exploration", design="§3 C07", technique="exhaustive enumeration of prior destination states x incoming name sets x protocols x roles, each a full transfer on the real code, against a reference fresh-name model and full before/after snapshots",
+   text="All 4^3 combinations of {absent, file, empty dir, non-empty dir} at name / name.0 / name.1, the full and the gapped name.N series, near-limit name lengths, four incoming sets, protocols, directory mode and both receiving roles, plus the same sources three times in a row, are transferred without -y through the real code; every pre-existing entry is compared (type, size, hash, mode, mtime) and the created entries with the reference mapping.",
+   note="Same trusted base as C01. Collisions below a fresh directory cannot happen and are not enumerated."),
+ "C08": dict(category="exploration", design="§3 C08", technique="exhaustive enumeration of (source, previous destination) relations (relative length x first differing offset class x block-boundary sizes) as full -y transfers on the real code; comparison block scaled through an overlay-made variable and at its real value",
+   text="Every (relative length, first differing offset class, size at a block boundary) combination x protocol {2,3,4} x base64/binary x direction is transferred with -y; the destination must equal the source byte for byte, siblings must be untouched and the payload written must equal size minus the proven common prefix computed by a reference.",
+   note="Scaled tier: the same code with kPrefixHashStep turned into a variable (rule R11) and set to 64; the real-constant tier (10 MiB blocks, 10-25 MiB files) always runs with it."),
 }
 not_yet="check not built yet in this session (framework under construction; see DESIGN.md §7 order)"
 m={"version":1,
